@@ -246,7 +246,7 @@ def locate(header, name):
 
 
 def tampers(rng, header, name, positions=None):
-    """yield (kind, tampered header); every single-byte substitution (3 replacement bytes), deletion and
+    """yield (kind, tampered header); every single-byte substitution (3 replacement bytes + the case flip), deletion and
     truncation at the chosen positions of the cookie's value, plus length changes"""
     s, e = locate(header, name)
     val = header[s:e]
@@ -258,6 +258,8 @@ def tampers(rng, header, name, positions=None):
         reps.add(rng.choice([x for x in SPECIALS if x != c]))
         r = chr(rng.choice([x for x in range(1, 256) if x not in (10, 13, ord(c))]))
         reps.add(r)
+        if c.isalpha() and c.isascii():
+            reps.add(c.swapcase())          # the nearest miss for a sloppy comparison
         for r in sorted(reps):
             yield 'subst', header[:s] + val[:p] + r + val[p + 1:] + header[e:]
         yield 'delete', header[:s] + val[:p] + val[p + 1:] + header[e:]
